@@ -66,3 +66,38 @@ MUTANTS += [
     dict(prop="C02", name="comment-lines-offset", file=DLB,
          old="        comment_mask = np.flatnonzero(comment_mask)\n", new="        comment_mask = np.flatnonzero(comment_mask)[:2]\n"),
 ]
+
+NDR = "bionumpy/io/npdataclassreader.py"
+AE = "bionumpy/encodings/alphabet_encoding.py"
+
+MUTANTS += [
+    # ---- C15 ----------------------------------------------------------------------------
+    dict(prop="C15", name="reader-offset-not-added-raw", file=P,
+         old="            try:\n                buff = self._buffer_type.from_raw_buffer(chunk, header_data=self._header_data)\n            except FormatException as e:\n                e.line_number += self.n_lines_read\n                raise e",
+         new="            try:\n                buff = self._buffer_type.from_raw_buffer(chunk, header_data=self._header_data)\n            except FormatException as e:\n                raise e"),
+    dict(prop="C15", name="eager-offset-added-twice", file=NDR,
+         old="        except FormatException as e:\n            e.line_number += n_lines_read\n            raise e",
+         new="        except FormatException as e:\n            e.line_number += n_lines_read + self._reader.n_lines_read - len(chunk.get_data()) * 0 - n_lines_read * 0\n            raise e"),
+    dict(prop="C15", name="lazy-start-line-dropped", file=NDR,
+         old="ItemGetter(chunk, chunk.dataclass, n_lines_read))", new="ItemGetter(chunk, chunk.dataclass))"),
+    dict(prop="C15", name="lazy-index-keeps-no-start-line-but-adds-row", file="bionumpy/bnpdataclass/lazybnpdataclass.py",
+         old="            e.line_number += self._start_line\n", new="            e.line_number += self._start_line + (self._start_line > 0)\n"),
+    dict(prop="C15", name="plus-line-check-first-entry-only", file=FQ,
+         old='        if np.any(data[new_lines[1::n_lines_per_entry] + 1] != "+"):', new='        if np.any(data[new_lines[1:2] + 1] != "+"):'),
+    dict(prop="C15", name="header-check-first-entry-only", file=OLB,
+         old="        if np.any(data[header_idxs] != header) or data[0] != header:", new="        if data[0] != header:"),
+    dict(prop="C15", name="lowercase-alias-for-all", file=AE,
+         old="        is_letter = (self._alphabet >= ord(\"A\")) & (self._alphabet <= ord(\"Z\"))", new="        is_letter = self._alphabet >= 0"),
+    dict(prop="C15", name="numeric-row-number-off", file=DLB,
+         old="                row_number = e.offset // text.shape[1]", new="                row_number = e.offset // max(text.shape[1] - 1, 1)"),
+    dict(prop="C15", name="ragged-row-number-side", file=DLB,
+         old='                row_number = np.searchsorted(np.cumsum(text.lengths), e.offset, side="right")', new='                row_number = np.searchsorted(np.cumsum(text.lengths), e.offset, side="left")'),
+    dict(prop="C15", name="cross-chunk-column-check-removed", file=P,
+         old="        if self._n_fields is not None and n_fields != self._n_fields:", new="        if False:"),
+    dict(prop="C15", name="in-chunk-column-check-multiples-pass", file=DLB,
+         old="            irregular = np.flatnonzero(entry_ends != n_fields * np.arange(1, entry_ends.size + 1) - 1)",
+         new="            irregular = np.flatnonzero((entry_ends + 1) % n_fields != 0)"),
+    dict(prop="C15", name="fasta-line-number-entry-not-line", file=OLB,
+         old="                line_number = (np.flatnonzero(data[header_idxs] != header)[0] + 1) * n_lines_per_entry",
+         new="                line_number = (np.flatnonzero(data[header_idxs] != header)[0] + 1) * 2"),
+]
